@@ -3,13 +3,18 @@
 (* Trace validation of golib's real decoders against FailClosed.           *)
 (* Events (harness/c04), one history per valid encoding:                   *)
 (*   Reset kind sub                                                        *)
-(*   Obj via len full consumed okcuts overrun                              *)
+(*   Obj via len full consumed okcuts overrun whole                        *)
 (*        full decode outcome and bytes consumed; okcuts = EVERY strict    *)
 (*        prefix length whose decode returned an object; overrun = max     *)
 (*        over those of (bytes the decoder claims consumed - prefix length)*)
 (*        via = "buffer", or "conn/<how the peer ends the stream>/<chunk>" *)
 (*        when the same reads pull from a connection that delivers the     *)
 (*        prefix and then ends (clean close, error, close with last data)  *)
+(*        whole = the len bytes are the complete output of the writer that *)
+(*        is paired with this decoder, for ONE object of a self-delimiting *)
+(*        format (FALSE only where the frame around the object tells the   *)
+(*        reader how much to take): then the VALID ENCODING of the property*)
+(*        is all len bytes, whatever the decoder chose to read of them     *)
 (*   Lazy len n0 n seqs maxalloc at accalloc accat                         *)
 (*        second stage.  On every object a decode of this encoding or of a *)
 (*        hostile variant returned (n0 objects) every public accessor was  *)
@@ -63,6 +68,11 @@ TraceObj == /\ Step1("Obj")
                  /\ e.full = "ok" =>
                       \A i \in 1..Len(e.okcuts) : PrefixRunOK(e.okcuts[i], e.consumed, OlderComplete, "ok")
                  /\ Len(e.okcuts) > 0 => e.overrun <= 0
+                 \* the valid encoding is the writer's whole output: its decoder needs all of it, and EVERY strict
+                 \* prefix of it fails (a reader that stops short of what its writer wrote accepts a prefix)
+                 /\ (Has(e, "whole") /\ e.whole = TRUE /\ e.full = "ok") =>
+                      /\ WholeRunOK(e.len, e.consumed)
+                      /\ \A i \in 1..Len(e.okcuts) : PrefixRunOK(e.okcuts[i], e.len, OlderComplete, "ok")
 
 TraceHostile == /\ Step1("Hostile")
                 /\ LET e == Trace[l] IN
